@@ -236,7 +236,7 @@ pub async fn run_case(c: Case) -> Result<CaseInfo, Failure> {
 
     // ---- safety
     let max_overlap = app.max_active_pub.get();
-    if c.role == Role::V3Server && c.max_receive != 0 && max_overlap > u32::from(c.max_receive) {
+    if matches!(c.role, Role::V3Server | Role::V3Client) && c.max_receive != 0 && max_overlap > u32::from(c.max_receive) {
         return Err(Failure::new(
             "overlap-exceeds-max-receive",
             format!("C12/{}/overlap-exceeds-max-receive", c.role.name()),
@@ -587,7 +587,7 @@ fn item_strategy(server: bool) -> BoxedStrategy<Item> {
 
 fn case_strategy(role: Role) -> BoxedStrategy<Case> {
     (
-        if role == Role::V3Server { prop::sample::select(vec![0u16, 1, 2, 3, 4]) } else { prop::sample::select(vec![1u16, 2, 3, 4, 0]) },
+        if matches!(role, Role::V3Server | Role::V3Client) { prop::sample::select(vec![0u16, 1, 2, 3, 4]) } else { prop::sample::select(vec![1u16, 2, 3, 4, 0]) },
         prop::sample::select(vec![0usize, 64, 1024, 65_535]),
         prop::collection::vec(item_strategy(role.is_server()), 1..11),
         1u8..5,
@@ -614,7 +614,7 @@ pub fn run(ctx: &Ctx, started: Instant) -> i32 {
     let per_shard = ctx.tier.pick(2_500u32, 50_000);
     let stats = par_shards(WORKERS, |shard| {
         let mut st = Stats::default();
-        let role = [Role::V3Server, Role::V5Server, Role::V5Client, Role::V3Server][shard % 4];
+        let role = [Role::V3Server, Role::V5Server, Role::V5Client, Role::V3Client][shard % 4];
         let mine: Vec<Fixed> = fixed_cases().into_iter().enumerate().filter(|(i, _)| i % WORKERS == shard).map(|(_, f)| f).collect();
         run_list_bed("C12", mine, &mut st, |f| json!({"fixed": f}), run_fixed);
         run_proptest_bed("C12", ctx.sub_seed("rand", shard), per_shard, &case_strategy(role), &mut st, |c| json!({"case": c}), run_case);
